@@ -242,3 +242,64 @@ chunk_lines = Contract("C11.chunk_lines", target=_cl_target, setup=_setup_cl, re
                                  ("counter not reset after a full chunk", "            remaining_lines = n_lines", "            remaining_lines = n_lines - 1"),
                                  ("held lines dropped at a chunk boundary", "        cur_buffers.append(chunk)", "        cur_buffers = [chunk]")])
 CONTRACTS.append(chunk_lines)
+
+
+# --- streamable._args_stream: the chunk of each streamed argument goes into the slot that argument occupied -------------------------------------
+# For a call f(a_0, ..., a_{k-1}) whose arguments at `stream_indices` are streams: the j-th argument list yielded has the j-th chunk of
+# every stream at that stream's own position and every other argument unchanged; one list per chunk of the shortest stream.  Proved for the
+# argument shapes (x, S), (S, x), (x, S, y), (S, x, T), (x, S, T): any number of chunks.
+from pyvc.pybuiltins import SymIter      # noqa: E402
+
+
+def _as_target():
+    from bionumpy.streams.decorators import streamable
+    return streamable._args_stream
+
+
+def _mk_args_stream(shape):
+    """shape: string over 'x' (plain argument) and 'S' (stream)"""
+    idx = [i for i, ch in enumerate(shape) if ch == "S"]
+
+    def setup(ctx):
+        st = St()
+        st.plain = {i: z3.Int("arg%d" % i) for i, ch in enumerate(shape) if ch == "x"}
+        st.n = {i: z3.Int("n_chunks%d" % i) for i in idx}
+        st.chunk = {i: z3.Function("chunk%d" % i, z3.IntSort(), z3.IntSort()) for i in idx}
+        st.its = {i: SymIter(st.n[i], (lambda i: lambda ip, p: st.chunk[i](I(p)))(i)) for i in idx}
+        st.args = [tuple(st.its[i] if ch == "S" else st.plain[i] for i, ch in enumerate(shape)), list(idx)]
+        st.yields = 0
+        st.total = st.n[idx[0]]
+        for i in idx[1:]:
+            st.total = Min(st.total, st.n[i])
+
+        def inv(ip, env):
+            return [("one.argument.list.per.chunk.so.far", I(st.yields) == I(env.vars["_it"]))]
+
+        def havoc(ip, env):
+            st.yields = env.vars["_it"]
+        ctx.ip.loop_specs[("streamable._args_stream", 0)] = LoopSpec(inv, havoc)
+        return st
+
+    def on_yield(ip, st, v, node, env):
+        c = ip.ctx
+        j = env.vars["_it"]
+        items = ip.concrete_items(v)
+        c.oblige("%s:yield.has.one.entry.per.argument" % c.fname, z3.BoolVal(items is not None and len(items) == len(shape)), "at_yield")
+        for i, ch in enumerate(shape):
+            want = st.chunk[i](I(j)) if ch == "S" else st.plain[i]
+            got = items[i] if items is not None and i < len(items) else None
+            ok = (I(got) == want) if isinstance(got, (int, z3.ArithRef)) else z3.BoolVal(False)
+            c.oblige("%s:yield.j.slot.%d.is.%s" % (c.fname, i, "chunk.j.of.that.stream" if ch == "S" else "the.plain.argument"), ok, "at_yield")
+        c.oblige("%s:exactly.one.yield.per.chunk" % c.fname, I(st.yields) == I(j), "at_yield")
+        st.yields = conc(I(st.yields) + 1)
+
+    def ens(ctx, st, ret):
+        return [("one.argument.list.per.chunk.of.the.shortest.stream", I(st.yields) == st.total)]
+
+    return Contract("C11.streamable._args_stream[%s]" % shape, target=_as_target, setup=setup,
+                    requires=lambda ctx, st: [n >= 0 for n in st.n.values()], ensures=ens, generator=GeneratorSpec(on_yield),
+                    canaries=[("chunks written to the leading slots", "zip(stream_indices, stream_args)", "enumerate(stream_args)")] if shape[0] != "S" or "xS" in shape else [])
+
+
+for _shape in ("xS", "Sx", "xSy".replace("y", "x"), "SxS", "xSS"):
+    CONTRACTS.append(_mk_args_stream(_shape))
